@@ -11,7 +11,7 @@ use serde_json::json;
 pub const PROP: &str = "C10";
 
 fn return_types() -> Vec<(&'static str, Ty)> {
-    let mut v = vec![("void", Ty::void())];
+    let mut v = vec![("void", Ty::void()), ("array-of-void", Ty::array(Ty::void()))];
     v.extend(category_types().into_iter().filter(|c| c.0 != "array-of-parcelable" && c.0 != "raw-map"));
     v
 }
@@ -28,7 +28,8 @@ fn method_of(form: usize, idx: usize, rts: &[(&'static str, Ty)], same_name: boo
 }
 
 /// variant: 0 plain, 1 constant first, 2 constant between, 3 all methods share one name,
-/// 4 every method carries annotations
+/// 4 every method carries annotations, 5 another method has a transact code that overflows u32
+/// (a parse-stage Error in the same file)
 fn make_case(forms: &[usize], iface_oneway: bool, variant: usize) -> Case {
     let rts = return_types();
     let mut item = Item::new(ItemKind::Interface, "Obs");
@@ -47,6 +48,11 @@ fn make_case(forms: &[usize], iface_oneway: bool, variant: usize) -> Case {
             m.annots.push(crate::model::seeds::annot_with("@A", vec![("k", Some(Scalar::Integer("1".into())))], false));
         }
         item.members.push(Member::Method(m));
+    }
+    if variant == 5 {
+        let mut z = Method::new(Ty::void(), "zz", vec![]);
+        z.code = Some("4294967296".into());
+        item.members.push(Member::Method(z));
     }
     let mut files = support();
     files.push(ProjFile::from_doc("obs", observed_header(item)));
@@ -83,7 +89,7 @@ fn make_case(forms: &[usize], iface_oneway: bool, variant: usize) -> Case {
                 .map(|f| format!("{}{}", if f % 2 == 1 { "oneway " } else { "" }, rts[f / 2].0))
                 .collect::<Vec<_>>()
                 .join(", "),
-            ["plain", "constant first", "constant between", "same method name", "annotated methods"][variant]
+            ["plain", "constant first", "constant between", "same method name", "annotated methods", "overflowing transact code elsewhere"][variant]
         ),
         files: files.iter().map(|f| (f.id.clone(), f.text.clone())).collect(),
         expect,
@@ -131,15 +137,15 @@ pub fn run(tier: Tier, seed: u64) -> i32 {
             }
         }
     }
-    let n = lists.len() * 2 * 5;
+    let n = lists.len() * 2 * 6;
     super::drive(
         &stats,
         n,
         1,
         |i| {
-            let variant = i % 5;
-            let io = (i / 5) % 2 == 1;
-            let l = &lists[i / 10];
+            let variant = i % 6;
+            let io = (i / 6) % 2 == 1;
+            let l = &lists[i / 12];
             if (variant == 2 && l.len() < 2) || (variant == 3 && l.len() < 2) || (variant == 1 && l.is_empty()) || (variant == 4 && l.is_empty()) {
                 return None;
             }
@@ -152,7 +158,7 @@ pub fn run(tier: Tier, seed: u64) -> i32 {
         },
         check_case,
     );
-    stats.space(json!({"space": "method lists", "forms": nforms, "return_types": rts.iter().map(|r| r.0).collect::<Vec<_>>(), "lists": lists.len(), "interface_oneway": 2, "variants": ["plain", "constant first", "constant between", "same method name", "annotated methods"]}));
+    stats.space(json!({"space": "method lists", "forms": nforms, "return_types": rts.iter().map(|r| r.0).collect::<Vec<_>>(), "lists": lists.len(), "interface_oneway": 2, "variants": ["plain", "constant first", "constant between", "same method name", "annotated methods", "overflowing transact code elsewhere"]}));
     let all = ["redundant-oneway", "oneway-must-return-void", "none"]
         .iter()
         .all(|c| stats.outcome_count(&format!("class:{c}")) > 0);
